@@ -147,6 +147,7 @@ def worker_main(argv):
     cid, tier, seed, shard, n, outp = argv[0], argv[1], int(argv[2]), int(argv[3]), int(argv[4]), argv[5]
     R = Result()
     t0 = time.time()
+    cov = _start_line_coverage("%s_%d" % (cid, shard))
     try:
         mod = load_check(cid)
         _in_big_frame(lambda: mod.run_shard(tier, seed, shard, n, R))
@@ -155,8 +156,28 @@ def worker_main(argv):
         R.inconclusive.append("harness error in shard %d: %s: %s | %s" % (
             shard, type(e).__name__, e, traceback.format_exc(limit=6).replace("\n", " / ")[-500:]))
     R.counters["shard_wall_ms"] = int((time.time() - t0) * 1000)
+    if cov is not None:
+        cov.stop()
+        cov.save()
     with open(outp, "w") as f:
         json.dump(R.to_json(), f)
+
+
+def _start_line_coverage(tag):
+    """diagnostic only (tools/cover.sh): with NSL_VERIF_COVER=<dir> every shard records which lines of the nsl package
+    its workload reached, so that unreached code can be read and the generators widened.  Never used by a verdict."""
+    d = os.environ.get("NSL_VERIF_COVER")
+    if not d:
+        return None
+    try:
+        import coverage
+    except ImportError:
+        return None
+    os.makedirs(d, exist_ok=True)
+    c = coverage.Coverage(data_file=os.path.join(d, "cov." + tag + ".%d" % os.getpid()),
+                          include=[os.path.join(bootstrap.repo_path(), "nsl", "*"), os.path.join(bootstrap.repo_path(), "*.py")])
+    c.start()
+    return c
 
 
 def _safe(key):
